@@ -1761,6 +1761,341 @@ theorem Fp12.cycExp_spec (c6 : Fp6bCfg G) (hc : CubicLawful c6.wrap)
 
 end gs
 
+
+/-! ## coordinates of `p^n`-th powers; the cyclotomic subgroup of `Fp12` -/
+
+section powcoords
+set_option linter.unusedSectionVars false
+variable {P F : Type} [Field F] [DecidableEq F]
+
+/-- coordinates of a `p^n`-th power on a quadratic layer (`p^n` odd) -/
+theorem Quad.pow_char_pow_coords {cfg : QuadCfg F} {B : FieldD P F} (p : ℕ) [Fact p.Prime]
+    [CharP F p] (hB : BaseLawful B) (hc : QuadLawful cfg) (n : ℕ) (hodd : p ^ n % 2 = 1)
+    (a : Quad F) :
+    letI := Quad.commRing cfg B hB hc
+    a ^ p ^ n = ⟨a.c0 ^ p ^ n, a.c1 ^ p ^ n * cfg.nonresidue ^ ((p ^ n - 1) / 2)⟩ := by
+  letI := Quad.commRing cfg B hB hc
+  haveI := Quad.charP hB hc (cfg := cfg) (B := B) p
+  have hX : (⟨0, 1⟩ : Quad F) ^ p ^ n =
+      Quad.ofBase hB hc (cfg.nonresidue ^ ((p ^ n - 1) / 2)) * ⟨0, 1⟩ := by
+    have : p ^ n = 2 * ((p ^ n - 1) / 2) + 1 := by omega
+    conv_lhs => rw [this]
+    exact Quad.X_pow_odd hB hc _
+  have ha : a = Quad.ofBase hB hc a.c0 + Quad.ofBase hB hc a.c1 * (Quad.ofBase hB hc 1 * ⟨0, 1⟩) := by
+    rw [Quad.ofBase_add_mul_X hB hc, mul_one]
+  conv_lhs => rw [ha]
+  rw [map_one, one_mul, add_pow_char_pow, mul_pow, hX, ← map_pow, ← map_pow,
+    Quad.ofBase_add_mul_X hB hc]
+
+/-- coordinates of a `p^n`-th power on a cubic layer (`p^n ≡ 1 mod 3`) -/
+theorem Cubic.pow_char_pow_coords {cfg : CubicCfg F} (p : ℕ) [Fact p.Prime]
+    [CharP F p] (hc : CubicLawful cfg) (n : ℕ) (h3 : p ^ n % 3 = 1) (a : Cubic F) :
+    letI := Cubic.commRing cfg hc
+    a ^ p ^ n = ⟨a.c0 ^ p ^ n, a.c1 ^ p ^ n * cfg.nonresidue ^ ((p ^ n - 1) / 3),
+      a.c2 ^ p ^ n * (cfg.nonresidue ^ ((p ^ n - 1) / 3)) ^ 2⟩ := by
+  letI := Cubic.commRing cfg hc
+  haveI := Cubic.charP hc (cfg := cfg) p
+  have hX : (⟨0, 1, 0⟩ : Cubic F) ^ p ^ n =
+      Cubic.ofBase hc (cfg.nonresidue ^ ((p ^ n - 1) / 3)) * ⟨0, 1, 0⟩ := by
+    have : p ^ n = 3 * ((p ^ n - 1) / 3) + 1 := by omega
+    conv_lhs => rw [this]
+    exact Cubic.X_pow hc _
+  have hX2 : (⟨0, 0, 1⟩ : Cubic F) ^ p ^ n =
+      Cubic.ofBase hc ((cfg.nonresidue ^ ((p ^ n - 1) / 3)) ^ 2) * ⟨0, 0, 1⟩ := by
+    rw [← Cubic.X_mul_X hc, mul_pow, hX, pow_two (cfg.nonresidue ^ _), map_mul]
+    ring
+  have ha : a = Cubic.ofBase hc a.c0 + Cubic.ofBase hc a.c1 * (Cubic.ofBase hc 1 * ⟨0, 1, 0⟩)
+      + Cubic.ofBase hc a.c2 * (Cubic.ofBase hc 1 * ⟨0, 0, 1⟩) := by
+    rw [Cubic.ofBase_add_mul_X hc, mul_one, mul_one]
+  conv_lhs => rw [ha]
+  rw [map_one, one_mul, one_mul, add_pow_char_pow, add_pow_char_pow, mul_pow, mul_pow, hX, hX2,
+    ← map_pow, ← map_pow, ← map_pow, Cubic.ofBase_add_mul_X hc]
+
+end powcoords
+
+section gsmem
+set_option linter.unusedSectionVars false
+variable {P G : Type} [Field G] [DecidableEq G]
+
+/-- the `q`-power Frobenius of `Fp12` over `G = F_q` in coordinates: `g_i w^i ↦ g_i γ^i w^i` with
+    `γ = ξ^((q-1)/6)` -/
+def sigma (γ : G) (s : Quad (Cubic G)) : Quad (Cubic G) :=
+  ⟨⟨s.c0.c0, s.c0.c1 * γ ^ 2, s.c0.c2 * γ ^ 4⟩, ⟨s.c1.c0 * γ, s.c1.c1 * γ ^ 3, s.c1.c2 * γ ^ 5⟩⟩
+
+/-- if `σ²(s)·s = σ(s)` for a primitive sixth root of unity `γ` then the Granger–Scott relations
+    hold -/
+theorem GSRel.of_sigma (ξ γ : G) (hγ : γ ^ 2 - γ + 1 = 0) (s : Quad (Cubic G))
+    (E : mul12 ξ (sigma γ (sigma γ s)) s = sigma γ s) : GSRel ξ s := by
+  have hγ0 : γ ≠ 0 := by
+    intro h; rw [h] at hγ; simp at hγ
+  have hγ1 : γ - 1 ≠ 0 := by
+    intro h
+    have : γ = 1 := by linear_combination h
+    rw [this] at hγ; simp at hγ
+  have g2 : γ ^ 2 = γ - 1 := by linear_combination hγ
+  have g3 : γ ^ 3 = -1 := by linear_combination (γ + 1) * hγ
+  have g4 : γ ^ 4 = -γ := by linear_combination (γ ^ 2 + γ) * hγ
+  have g5 : γ ^ 5 = 1 - γ := by linear_combination (γ ^ 3 + γ ^ 2 - 1) * hγ
+  have g6 : γ ^ 6 = 1 := by
+    rw [show γ ^ 6 = γ ^ 3 * γ ^ 3 by ring, g3]; ring
+  have g8 : γ ^ 8 = γ - 1 := by
+    rw [show γ ^ 8 = γ ^ 4 * γ ^ 4 by ring, g4]; linear_combination g2
+  have g10 : γ ^ 10 = -γ := by
+    rw [show γ ^ 10 = γ ^ 5 * γ ^ 5 by ring, g5]; linear_combination g2
+  obtain ⟨⟨r0, r4, r3⟩, ⟨r2, r1, r5⟩⟩ := s
+  have hs1 : sigma γ ⟨⟨r0, r4, r3⟩, ⟨r2, r1, r5⟩⟩ =
+      ⟨⟨r0, r4 * (γ - 1), r3 * (-γ)⟩, ⟨r2 * γ, r1 * (-1), r5 * (1 - γ)⟩⟩ := by
+    simp only [sigma, g2, g3, g4, g5]
+  have hs2 : sigma γ (sigma γ ⟨⟨r0, r4, r3⟩, ⟨r2, r1, r5⟩⟩) =
+      ⟨⟨r0, r4 * (-γ), r3 * (γ - 1)⟩, ⟨r2 * (γ - 1), r1, r5 * (-γ)⟩⟩ := by
+    simp only [sigma]
+    apply Quad.ext' <;> apply Cubic.ext' <;> simp only []
+    · rw [mul_assoc, ← pow_add, g4]
+    · rw [mul_assoc, ← pow_add, g8]
+    · rw [mul_assoc, ← pow_two, g2]
+    · rw [mul_assoc, ← pow_add, g6, mul_one]
+    · rw [mul_assoc, ← pow_add, g10]
+  rw [hs2, hs1] at E
+  simp only [mul12, cmul] at E
+  have h0 := congrArg Quad.c0 E
+  have h1 := congrArg Quad.c1 E
+  have e0 := congrArg Cubic.c0 h0
+  have e1 := congrArg Cubic.c1 h0
+  have e2 := congrArg Cubic.c2 h0
+  have e3 := congrArg Cubic.c0 h1
+  have e4 := congrArg Cubic.c1 h1
+  have e5 := congrArg Cubic.c2 h1
+  simp only [Cubic.add_c0, Cubic.add_c1, Cubic.add_c2] at e0 e1 e2 e3 e4 e5
+  unfold GSRel adj4 Quad.conj
+  apply Quad.ext' <;> apply Cubic.ext' <;> simp only [Cubic.neg_c0, Cubic.neg_c1, Cubic.neg_c2]
+  · linear_combination e0
+  · apply mul_left_cancel₀ hγ1
+    linear_combination e1
+  · apply mul_left_cancel₀ hγ0
+    linear_combination (-1 : G) * e2
+  · apply mul_left_cancel₀ hγ0
+    linear_combination (-1 : G) * e3
+  · linear_combination e4
+  · apply mul_left_cancel₀ hγ1
+    linear_combination e5
+
+
+/-- the `|G|`-power map of `Fp12` over a finite `G` with `|G| ≡ 1 mod 6` is `sigma γ`,
+    `γ = ξ^((|G|-1)/6)` -/
+theorem Fp12.pow_card_eq_sigma [Fintype G] (p : ℕ) [Fact p.Prime] [CharP G p]
+    (hq6 : Fintype.card G % 6 = 1) (c6 : Fp6bCfg G) (hc : CubicLawful c6.wrap)
+    (hnc : ∀ x : G, x ^ 3 ≠ c6.wrap.nonresidue) (tbl : List G)
+    (B2 : FieldD P G) (hB2 : BaseLawful B2) (s : Quad (Cubic G)) :
+    letI := Cubic.field c6.wrap hc hnc
+    letI := Quad.commRing (Fp12.cfg c6 ⟨0, 1, 0⟩ tbl) (Cubic.fieldD c6.wrap B2)
+      (Cubic.fieldD_baseLawful hB2 hc hnc) (Fp12.cfg_lawful c6 hc hnc tbl)
+    s ^ Fintype.card G = sigma (c6.wrap.nonresidue ^ ((Fintype.card G - 1) / 6)) s := by
+  letI := Cubic.field c6.wrap hc hnc
+  haveI : CharP (Cubic G) p := Cubic.charP hc p
+  have hB6 := Cubic.fieldD_baseLawful hB2 hc hnc
+  have hc12 := Fp12.cfg_lawful c6 hc hnc tbl
+  obtain ⟨n, -, hn⟩ := FiniteField.card G p
+  have hodd : p ^ (n : ℕ) % 2 = 1 := by rw [← hn]; omega
+  have h3 : p ^ (n : ℕ) % 3 = 1 := by rw [← hn]; omega
+  have hfix : ∀ r : G, r ^ p ^ (n : ℕ) = r := by
+    intro r; rw [← hn]; exact FiniteField.pow_card r
+  have e1 := Quad.pow_char_pow_coords p hB6 hc12 n hodd s
+  have e2 := Cubic.pow_char_pow_coords (cfg := c6.wrap) p hc n h3 s.c0
+  have e3 := Cubic.pow_char_pow_coords (cfg := c6.wrap) p hc n h3 s.c1
+  have e4 : ((⟨0, 1, 0⟩ : Cubic G)) ^ ((p ^ (n : ℕ) - 1) / 2) =
+      ⟨c6.wrap.nonresidue ^ ((p ^ (n : ℕ) - 1) / 6), 0, 0⟩ := by
+    have : (p ^ (n : ℕ) - 1) / 2 = 3 * ((p ^ (n : ℕ) - 1) / 6) := by
+      rw [← hn]; omega
+    rw [this, pow_mul]
+    have := Cubic.X_cube (cfg := c6.wrap) hc
+    rw [this, ← map_pow]
+    rfl
+  rw [hn]
+  refine e1.trans ?_
+  show (⟨s.c0 ^ p ^ (n : ℕ), Cubic.mul c6.wrap (s.c1 ^ p ^ (n : ℕ))
+    ((⟨0, 1, 0⟩ : Cubic G) ^ ((p ^ (n : ℕ) - 1) / 2))⟩ : Quad (Cubic G)) = _
+  rw [e4]
+  have e2' : s.c0 ^ p ^ (n : ℕ) = _ := e2
+  have e3' : s.c1 ^ p ^ (n : ℕ) = _ := e3
+  rw [e2', e3', Cubic.mul_eq hc]
+  simp only [hfix, sigma]
+  have hm : (p ^ (n : ℕ) - 1) / 3 = 2 * ((p ^ (n : ℕ) - 1) / 6) := by
+    rw [← hn]; omega
+  rw [hm]
+  apply Quad.ext' <;> apply Cubic.ext' <;> simp only [] <;> ring
+
+
+/-- in a finite field with `k ∣ |F| - 1`, the `k`-th powers are the non-zero elements killed by the
+    exponent `(|F|-1)/k` -/
+theorem exists_pow_eq_of_pow_card_div {F : Type} [Field F] [Fintype F] (k : ℕ)
+    (hk : k ∣ Fintype.card F - 1) (a : F) (ha : a ≠ 0)
+    (h : a ^ ((Fintype.card F - 1) / k) = 1) : ∃ y : F, y ^ k = a := by
+  obtain ⟨g, hg⟩ := IsCyclic.exists_generator (α := Fˣ)
+  obtain ⟨n, hn⟩ : Units.mk0 a ha ∈ Submonoid.powers g := by
+    rw [mem_powers_iff_mem_zpowers]; apply hg
+  have hord : orderOf g = Fintype.card F - 1 := by
+    rw [orderOf_eq_card_of_forall_mem_zpowers hg, Nat.card_units, Nat.card_eq_fintype_card]
+  have hu : (Units.mk0 a ha) ^ ((Fintype.card F - 1) / k) = 1 := by
+    apply Units.ext
+    rw [Units.val_pow_eq_pow_val, Units.val_mk0, h, Units.val_one]
+  rw [← hn, ← pow_mul] at hu
+  have key := orderOf_dvd_of_pow_eq_one hu
+  rw [hord] at key
+  obtain ⟨d, hd⟩ := hk
+  have hq : 0 < Fintype.card F - 1 := by
+    have := Fintype.one_lt_card (α := F); omega
+  have hk0 : 0 < k := Nat.pos_of_ne_zero (by rintro rfl; rw [zero_mul] at hd; omega)
+  have hd0 : 0 < d := Nat.pos_of_ne_zero (by rintro rfl; rw [mul_zero] at hd; omega)
+  rw [hd, Nat.mul_div_cancel_left d hk0] at key
+  obtain ⟨m, rfl⟩ := Nat.dvd_of_mul_dvd_mul_right hd0 key
+  refine ⟨((g ^ m : Fˣ) : F), ?_⟩
+  have : (g ^ m) ^ k = Units.mk0 a ha := by rw [← hn, ← pow_mul, mul_comm]
+  have := congrArg Units.val this
+  rwa [Units.val_pow_eq_pow_val, Units.val_mk0] at this
+
+/-- `Quad.conj` is `sigma γ` iterated three times when `γ³ = -1` -/
+theorem sigma_three (γ : G) (g3 : γ ^ 3 = -1) (s : Quad (Cubic G)) :
+    sigma γ (sigma γ (sigma γ s)) = Quad.conj s := by
+  have g6 : γ ^ 6 = 1 := by rw [show γ ^ 6 = γ ^ 3 * γ ^ 3 by ring, g3]; ring
+  obtain ⟨⟨r0, r4, r3⟩, ⟨r2, r1, r5⟩⟩ := s
+  simp only [sigma, Quad.conj]
+  apply Quad.ext' <;> apply Cubic.ext' <;> simp only [Cubic.neg_c0, Cubic.neg_c1, Cubic.neg_c2]
+  · rw [mul_assoc, mul_assoc, ← pow_add, ← pow_add, g6, mul_one]
+  · rw [mul_assoc, mul_assoc, ← pow_add, ← pow_add,
+      show γ ^ (4 + (4 + 4)) = γ ^ 6 * γ ^ 6 by ring, g6]; ring
+  · rw [mul_assoc, mul_assoc, ← pow_two, ← pow_succ', g3]; ring
+  · rw [mul_assoc, mul_assoc, ← pow_add, ← pow_add,
+      show γ ^ (3 + (3 + 3)) = γ ^ 6 * γ ^ 3 by ring, g6, g3]; ring
+  · rw [mul_assoc, mul_assoc, ← pow_add, ← pow_add,
+      show γ ^ (5 + (5 + 5)) = γ ^ 6 * γ ^ 6 * γ ^ 3 by ring, g6, g3]; ring
+
+/-- the sixth root of unity `γ = ξ^((q-1)/6)` attached to a non-square non-cube `ξ` is primitive -/
+theorem gamma_spec [Fintype G] (hq6 : Fintype.card G % 6 = 1) (ξ : G)
+    (hnr : ∀ x : G, x * x ≠ ξ) (hnc : ∀ x : G, x ^ 3 ≠ ξ) :
+    (ξ ^ ((Fintype.card G - 1) / 6)) ^ 3 = -1 ∧
+    (ξ ^ ((Fintype.card G - 1) / 6)) ^ 2 - ξ ^ ((Fintype.card G - 1) / 6) + 1 = 0 := by
+  have hξ : ξ ≠ 0 := by
+    intro h
+    exact hnc 0 (by rw [h]; ring)
+  have hcard := FiniteField.pow_card_sub_one_eq_one ξ hξ
+  have h6 : Fintype.card G - 1 = 6 * ((Fintype.card G - 1) / 6) := by omega
+  have e2 : (Fintype.card G - 1) / 2 = 3 * ((Fintype.card G - 1) / 6) := by omega
+  have e3 : (Fintype.card G - 1) / 3 = 2 * ((Fintype.card G - 1) / 6) := by omega
+  have hsq : ξ ^ ((Fintype.card G - 1) / 2) ≠ 1 := by
+    intro h
+    obtain ⟨y, hy⟩ := exists_pow_eq_of_pow_card_div 2 (by omega) _ hξ h
+    exact hnr y (by rw [← hy]; ring)
+  have hcb : ξ ^ ((Fintype.card G - 1) / 3) ≠ 1 := by
+    intro h
+    obtain ⟨y, hy⟩ := exists_pow_eq_of_pow_card_div 3 (by omega) _ hξ h
+    exact hnc y hy
+  set γ := ξ ^ ((Fintype.card G - 1) / 6) with hγdef
+  have g6 : γ ^ 6 = 1 := by rw [hγdef, ← pow_mul, mul_comm, ← h6]; exact hcard
+  have g3 : γ ^ 3 = -1 := by
+    have hne : γ ^ 3 ≠ 1 := by rw [hγdef, ← pow_mul, mul_comm, ← e2]; exact hsq
+    have : (γ ^ 3 - 1) * (γ ^ 3 + 1) = 0 := by linear_combination g6
+    rcases mul_eq_zero.mp this with h | h
+    · exact absurd (by linear_combination h) hne
+    · linear_combination h
+  have g2 : γ ^ 2 ≠ 1 := by rw [hγdef, ← pow_mul, mul_comm, ← e3]; exact hcb
+  refine ⟨g3, ?_⟩
+  have : (γ + 1) * (γ ^ 2 - γ + 1) = 0 := by linear_combination g3
+  rcases mul_eq_zero.mp this with h | h
+  · exfalso; apply g2
+    have : γ = -1 := by linear_combination h
+    rw [this]; ring
+  · exact h
+
+/-- **membership ⇒ relations**: over `G = F_q`, `q ≡ 1 (mod 6)`, with `ξ` neither a square nor a
+    cube, every `s ∈ Fp12` with `s^(q²) · s = s^q` satisfies the Granger–Scott relations -/
+theorem GSRel.of_mem [Fintype G] (p : ℕ) [Fact p.Prime] [CharP G p]
+    (hq6 : Fintype.card G % 6 = 1) (c6 : Fp6bCfg G) (hc : CubicLawful c6.wrap)
+    (hnr : ∀ x : G, x * x ≠ c6.wrap.nonresidue)
+    (hnc : ∀ x : G, x ^ 3 ≠ c6.wrap.nonresidue) (tbl : List G)
+    (B2 : FieldD P G) (hB2 : BaseLawful B2) (s : Quad (Cubic G))
+    (hmem : letI := Cubic.field c6.wrap hc hnc
+      letI := Quad.commRing (Fp12.cfg c6 ⟨0, 1, 0⟩ tbl) (Cubic.fieldD c6.wrap B2)
+        (Cubic.fieldD_baseLawful hB2 hc hnc) (Fp12.cfg_lawful c6 hc hnc tbl)
+      s ^ Fintype.card G ^ 2 * s = s ^ Fintype.card G) :
+    GSRel c6.wrap.nonresidue s := by
+  letI := Cubic.field c6.wrap hc hnc
+  letI := Quad.commRing (Fp12.cfg c6 ⟨0, 1, 0⟩ tbl) (Cubic.fieldD c6.wrap B2)
+    (Cubic.fieldD_baseLawful hB2 hc hnc) (Fp12.cfg_lawful c6 hc hnc tbl)
+  obtain ⟨-, hγ⟩ := gamma_spec hq6 c6.wrap.nonresidue hnr hnc
+  apply GSRel.of_sigma _ _ hγ
+  have hp1 := Fp12.pow_card_eq_sigma p hq6 c6 hc hnc tbl B2 hB2 s
+  have hp2 := Fp12.pow_card_eq_sigma p hq6 c6 hc hnc tbl B2 hB2 (sigma (c6.wrap.nonresidue ^ ((Fintype.card G - 1) / 6)) s)
+  rw [pow_two, pow_mul, hp1, hp2] at hmem
+  rw [← Fp12.mul_eq_mul12 c6 hc hnc tbl B2 hB2]
+  exact hmem
+
+
+/-- elements of the cyclotomic subgroup (`s^(q²-q+1) = 1`) are unitary and satisfy the relations -/
+theorem Fp12.of_cyclotomic [Fintype G] (p : ℕ) [Fact p.Prime] [CharP G p]
+    (hq6 : Fintype.card G % 6 = 1) (c6 : Fp6bCfg G) (hc : CubicLawful c6.wrap)
+    (hnr : ∀ x : G, x * x ≠ c6.wrap.nonresidue)
+    (hnc : ∀ x : G, x ^ 3 ≠ c6.wrap.nonresidue) (tbl : List G)
+    (B2 : FieldD P G) (hB2 : BaseLawful B2) (s : Quad (Cubic G))
+    (hmem : letI := Cubic.field c6.wrap hc hnc
+      letI := Quad.commRing (Fp12.cfg c6 ⟨0, 1, 0⟩ tbl) (Cubic.fieldD c6.wrap B2)
+        (Cubic.fieldD_baseLawful hB2 hc hnc) (Fp12.cfg_lawful c6 hc hnc tbl)
+      s ^ (Fintype.card G ^ 2 - Fintype.card G + 1) = 1) :
+    letI := Cubic.field c6.wrap hc hnc
+    Quad.norm (Fp12.cfg c6 ⟨0, 1, 0⟩ tbl) (Cubic.fieldD c6.wrap B2) s = 1 ∧
+    GSRel c6.wrap.nonresidue s := by
+  letI := Cubic.field c6.wrap hc hnc
+  have hB6 := Cubic.fieldD_baseLawful hB2 hc hnc
+  have hc12 := Fp12.cfg_lawful c6 hc hnc tbl
+  letI := Quad.commRing (Fp12.cfg c6 ⟨0, 1, 0⟩ tbl) (Cubic.fieldD c6.wrap B2) hB6 hc12
+  have hle : Fintype.card G ≤ Fintype.card G ^ 2 := Nat.le_self_pow (by norm_num) _
+  obtain ⟨g3, hγ⟩ := gamma_spec hq6 c6.wrap.nonresidue hnr hnc
+  have hpow : ∀ x : Quad (Cubic G), x ^ Fintype.card G =
+      sigma (c6.wrap.nonresidue ^ ((Fintype.card G - 1) / 6)) x :=
+    fun x => Fp12.pow_card_eq_sigma p hq6 c6 hc hnc tbl B2 hB2 x
+  constructor
+  · -- `s · conj s = s^(q³+1) = (s^(q²-q+1))^(q+1) = 1`
+    have e : (Fintype.card G ^ 2 - Fintype.card G + 1) * (Fintype.card G + 1)
+        = Fintype.card G ^ 3 + 1 := by
+      zify [hle]; ring
+    have h3 : s ^ Fintype.card G ^ 3 = Quad.conj s := by
+      rw [show Fintype.card G ^ 3 = Fintype.card G * Fintype.card G * Fintype.card G by ring,
+        pow_mul, pow_mul, hpow, hpow, hpow, sigma_three _ g3]
+    have h1 : s ^ Fintype.card G ^ 3 * s = 1 := by
+      rw [← pow_succ, ← e, pow_mul, hmem, one_pow]
+    rw [h3, mul_comm] at h1
+    have h2 : Quad.mul (Fp12.cfg c6 ⟨0, 1, 0⟩ tbl) (Cubic.fieldD c6.wrap B2) s (Quad.conj s) = 1 := h1
+    rw [Quad.mul_conj hB6 hc12] at h2
+    exact congrArg Quad.c0 h2
+  · apply GSRel.of_mem p hq6 c6 hc hnr hnc tbl B2 hB2 s
+    have e : Fintype.card G ^ 2 + 1 = (Fintype.card G ^ 2 - Fintype.card G + 1) + Fintype.card G := by
+      omega
+    rw [← pow_succ, e, pow_add, hmem, one_mul]
+
+
+/-- **`cyclotomic_exp` of `Fp12` on the cyclotomic subgroup**: over `Fp2 = G` of order `q ≡ 1 mod 6`
+    (`q = p²`, this is the guard `characteristic_square_mod_6_is_one`), for every `s` with
+    `s^(q² - q + 1) = 1` (`q² - q + 1 = Φ₁₂(p)`), the result is `s ^ e`. -/
+theorem Fp12.cycExp_of_cyclotomic [Fintype G] (p : ℕ) [Fact p.Prime] [CharP G p]
+    (hq6 : Fintype.card G % 6 = 1) (c6 : Fp6bCfg G) (hc : CubicLawful c6.wrap)
+    (hnr : ∀ x : G, x * x ≠ c6.wrap.nonresidue)
+    (hnc : ∀ x : G, x ^ 3 ≠ c6.wrap.nonresidue) (tbl : List G)
+    (B2 : FieldD P G) (hB2 : BaseLawful B2) (limbs : List Nat) (s : Quad (Cubic G))
+    (hmem : letI := Cubic.field c6.wrap hc hnc
+      letI := Quad.commRing (Fp12.cfg c6 ⟨0, 1, 0⟩ tbl) (Cubic.fieldD c6.wrap B2)
+        (Cubic.fieldD_baseLawful hB2 hc hnc) (Fp12.cfg_lawful c6 hc hnc tbl)
+      s ^ (Fintype.card G ^ 2 - Fintype.card G + 1) = 1)
+    (e : List Nat) (he : WF e) :
+    letI := Cubic.field c6.wrap hc hnc
+    letI := Quad.commRing (Fp12.cfg c6 ⟨0, 1, 0⟩ tbl) (Cubic.fieldD c6.wrap B2)
+      (Cubic.fieldD_baseLawful hB2 hc hnc) (Fp12.cfg_lawful c6 hc hnc tbl)
+    cycExp (CycD.conj (Quad.fieldD (Fp12.cfg c6 ⟨0, 1, 0⟩ tbl) (Cubic.fieldD c6.wrap B2))
+      (some (Fp12.cycSquare c6 B2.double
+        (Quad.fieldD (Fp12.cfg c6 ⟨0, 1, 0⟩ tbl) (Cubic.fieldD c6.wrap B2)).square limbs))) s e
+      = .ok (s ^ value e) := by
+  obtain ⟨hn, hs⟩ := Fp12.of_cyclotomic p hq6 c6 hc hnr hnc tbl B2 hB2 s hmem
+  exact Fp12.cycExp_spec c6 hc hnc tbl B2 hB2 limbs s hn hs e he
+
+end gsmem
 /-! ## concrete instances over `ZMod 7` (for the non-vacuity examples of `Ark.Props.C02b`) -/
 
 section zmod7
